@@ -198,9 +198,11 @@ RECURSIVE Restoring(_, _, _, _, _, _)
 \* processes dividend bits i-1 .. 0; rem is the w-bit remainder register, quo the quotient so far
 Restoring(i, dvd, minusd, m, rem, quo) ==
     IF i = 0 THEN << quo, rem >>
-    ELSE LET sh == ((2 * rem) % m) + ((dvd \div P2(i-1)) % 2)      \* drop the top bit, append the next dividend bit
+    ELSE LET out == (2 * rem) \div m                                \* the bit shifted out of the register
+             sh == ((2 * rem) % m) + ((dvd \div P2(i-1)) % 2)      \* drop the top bit, append the next dividend bit
              sum == sh + minusd
-             qb == sum \div m                                       \* carry-out of the adder
+             carry == sum \div m                                    \* carry-out of the adder
+             qb == IF carry = 1 \/ out = 1 THEN 1 ELSE 0            \* quotient bit = carry OR shifted-out bit
          IN Restoring(i - 1, dvd, minusd, m, IF qb = 1 THEN sum % m ELSE sh, 2 * quo + qb)
 \* dividend / quotient: w bits (modulus mq); divisor / remainder register: wb bits (modulus m)
 DivAlg2(sg, w, wb, a, d) ==
